@@ -206,16 +206,44 @@ def rule_selector_retirement(ctx):
                 neg = any(callee_matches(callee_of(c), r"sat_solver::Literal::negate$") for c in calls)
                 from_param = derives_from_local(rb, s.node["args"][1], 2)
                 ok_unit = ok_unit or (neg and from_param)
+        # ... or through a helper of the same type that adds the clause it is given (`retire_solver_var(var, fixing_lit)`)
+        for s in rb.calls():
+            t = prog.body_for_callee(callee_of(s), rb) if callee_of(s) else None
+            if t is None or t.kind == "closure" or not t.impl or t.impl.get("self_adt") != owner or not rb.postdominates(s, (0, -1)):
+                continue
+            for s2 in t.calls():
+                if not callee_matches(callee_of(s2), r"sat_solver::SatSolver::add_clause$") or not t.postdominates(s2, (0, -1)):
+                    continue
+                for k in range(2, t.n_args + 1):
+                    if derives_from_local(t, s2.node["args"][1], k) and k - 1 < len(s.node["args"]):
+                        a = s.node["args"][k - 1]
+                        _, calls, _ = data_deps(rb, a)
+                        neg = any(callee_matches(callee_of(c), r"sat_solver::Literal::negate$") for c in calls)
+                        if neg and derives_from_local(rb, a, 2):
+                            ok_unit = True
         r.check(ok_unit, rb.id, "no-unit-clause", "retiring adds the unit clause of the negated selector on every path", "retiring a selector does not add the unit clause of its negation", rb.loc())
         r.check(rb.postdominates(ru.site, (0, -1)), rb.id, "assumption-kept", "retiring removes the selector from the active assumptions on every path", "a retired selector can stay in the active assumptions", ru.site.loc())
-        # called from the re-encoding function on the Some arm of the recorded selector
-        calls = [s for s in reb.calls() if (callee_of(s) or {}).get("decl") == rb.path or strip_generics(callee_name(callee_of(s)) or "") == strip_generics(rb.path)]
-        ok_arm = False
-        for s in calls:
-            for c in conditions(reb, s.bb):
-                if c.is_discr and not c.negated and c.values == ["1"]:
-                    ok_arm = True
-        r.check(bool(calls) and ok_arm, reb.id, "retire-unconditional-or-missing", "re-issuing retires the previous selector when one is recorded", "re-issuing constraints does not retire the previously recorded selector", reb.loc())
+        # called from the re-encoding function on the Some arm of the recorded selector (directly, or through a wrapper of the
+        # same type that tests the recorded selector itself)
+        def _is_call_to(x, target):
+            c = callee_of(x)
+            return bool(c) and (c.get("decl") == target.path or strip_generics(callee_name(c) or "") == strip_generics(target.path))
+
+        def _on_some_arm(body, site):
+            return any(c.is_discr and not c.negated and c.values == ["1"] for c in conditions(body, site.bb))
+
+        chains = []
+        for x in reb.calls():
+            if _is_call_to(x, rb):
+                chains.append([(reb, x)])
+                continue
+            t = prog.body_for_callee(callee_of(x), reb) if callee_of(x) else None
+            if t is not None and t.kind != "closure" and t.impl and t.impl.get("self_adt") == owner:
+                for y in t.calls():
+                    if _is_call_to(y, rb):
+                        chains.append([(reb, x), (t, y)])
+        ok_arm = any(any(_on_some_arm(bd, st) for bd, st in ch) for ch in chains)
+        r.check(bool(chains) and ok_arm, reb.id, "retire-unconditional-or-missing", "re-issuing retires the previous selector when one is recorded", "re-issuing constraints does not retire the previously recorded selector", reb.loc())
     # record of the new selector: table store Some(..) after the push
     tbl = [f["name"] for v in adt["variants"] for f in v["fields"] if f["ty"] == "alloc::vec::Vec<core::option::Option<usize>>"]
     stores = []
